@@ -43,8 +43,8 @@ func probe() {
 			defer func() { recover() }()
 			eo.Decode(append(append([]byte{}, tid...), 0x01, 0x01, 0x00, 0x00, 0x00, 0x00))
 		}()
-		if eo.Value != nil {
-			t := reflect.TypeOf(eo.Value).Elem()
+		if vt := reflect.TypeOf(eo.Value); eo.Value != nil && vt.Kind() == reflect.Ptr && vt.Elem().Kind() == reflect.Struct {
+			t := vt.Elem()
 			if _, dup := regMap[t.Name()]; !dup {
 				regList = append(regList, regType{Name: t.Name(), ID: uint16(id), T: t})
 				regMap[t.Name()] = t
